@@ -24,7 +24,30 @@ func newBody() *Body {
 	}
 }
 
+// ensureLineEnd makes sure that whatever the body currently ends with is
+// terminated by a newline, so that a new item can be appended after it. The
+// last item of a parsed file that has no trailing newline is not.
+func (b *Body) ensureLineEnd() {
+	last := b.children.last
+	if last == nil {
+		return
+	}
+	toks := last.content.BuildTokens(nil)
+	if len(toks) == 0 {
+		return
+	}
+	lastTok := toks[len(toks)-1]
+	switch {
+	case lastTok.Type == hclsyntax.TokenNewline:
+		return
+	case lastTok.Type == hclsyntax.TokenComment && len(lastTok.Bytes) > 0 && lastTok.Bytes[len(lastTok.Bytes)-1] == '\n':
+		return
+	}
+	b.AppendNewline()
+}
+
 func (b *Body) appendItem(c nodeContent) *node {
+	b.ensureLineEnd()
 	nn := b.children.Append(c)
 	b.items.Add(nn)
 	return nn
@@ -32,6 +55,7 @@ func (b *Body) appendItem(c nodeContent) *node {
 
 func (b *Body) appendItemNode(nn *node) *node {
 	nn.assertUnattached()
+	b.ensureLineEnd()
 	b.children.AppendNode(nn)
 	b.items.Add(nn)
 	return nn
